@@ -41,11 +41,13 @@ const (
 	c04taFixedVector // X*3
 	c04taUnionCase   // [int, X]
 	c04taMapInVector // (uint->X)*
+	c04taEnumBase    // Level: !enum with base: X   (X an alias of an integer primitive)
+	c04taFlagsBase   // Perm: !flags with base: X
 	c04taNCarriers
 )
 
 var c04taCarrierNames = []string{"Pair<X,int>", "Lib.Box<X>", "Opt<X>", "Lib.Seq<X>", "Lib.Box<Pair<int,X>>", "Pair<Lib.Seq<X>,string>", "LocalBox<X>", "Lib.Box<X*>",
-	"string->X", "X->int", "X[]", "X*3", "[int,X]", "(uint->X)*"}
+	"string->X", "X->int", "X[]", "X*3", "[int,X]", "(uint->X)*", "enum base X", "flags base X"}
 
 const (
 	c04taStep = iota
@@ -161,8 +163,15 @@ func c04taBuild(target, carrier, where int, ps, ebase string, edit int) *c04taMo
 		c = b.fvec(x(), 3)
 	case c04taUnionCase:
 		c = b.gt(nil, m.prim(b, "int"), x())
-	default:
+	case c04taMapInVector:
 		c = b.vec(b.mapOf(m.prim(b, "uint"), x()))
+	default:
+		e := b.enum(ns, "Based", x(), "one", "two")
+		e.Values[0].IntegerValue = *big.NewInt(1)
+		e.Values[1].IntegerValue = *big.NewInt(2)
+		e.IsFlags = carrier == c04taFlagsBase
+		n.TypeDefinitions = append(n.TypeDefinitions, e)
+		c = b.st("Based")
 	}
 	first := b.step("first", m.prim(b, "int"))
 	var steps []*dsl.ProtocolStep
@@ -236,6 +245,10 @@ func (m *c04taModel) reach(idx c04taDefs, ns string, tparams []*dsl.GenericTypeP
 			}
 		case *dsl.NamedType:
 			m.reach(idx, meta.Namespace, meta.TypeParameters, d.Type, out)
+		case *dsl.EnumDefinition:
+			if d.BaseType != nil {
+				m.reach(idx, meta.Namespace, meta.TypeParameters, d.BaseType, out)
+			}
 		}
 	case *dsl.GeneralizedType:
 		for _, c := range t.Cases {
@@ -270,7 +283,7 @@ func c04taSchema(m *c04taModel) (text string, missing string, ok bool) {
 			listed[td.GetDefinitionMeta().GetQualifiedName()] = true
 		}
 		// fixed order: the names the oracle can produce
-		for _, q := range []string{"Lib.Box", "Lib.Seq", "Lib.Sample", "Ns.Pair", "Ns.Opt", "Ns.LocalBox", "Ns.Sample", "Ns.Holder", "Ns.Held"} {
+		for _, q := range []string{"Lib.Box", "Lib.Seq", "Lib.Sample", "Ns.Pair", "Ns.Opt", "Ns.LocalBox", "Ns.Sample", "Ns.Holder", "Ns.Held", "Ns.Based"} {
 			if need[q] && !listed[q] && missing == "" {
 				missing = q
 			}
